@@ -47,6 +47,9 @@ pub struct Scenario {
     pub send_faults: bool,
     /// mode M2: artificial yields at the scheduling points inside rpc()/recv() (Tasks placement only)
     pub yields: bool,
+    /// every reply carries 70 KB of data (size-dependent paths between taking a message off the transport and
+    /// handing it to its owner)
+    pub big_replies: bool,
 }
 
 impl Scenario {
@@ -60,6 +63,7 @@ impl Scenario {
             "send_may_stall": self.stalls,
             "artificial_yields_inside_sections": self.yields,
             "send_may_fail": self.send_faults,
+            "reply_size": if self.big_replies { "70 KB" } else { "small" },
         })
     }
 }
@@ -81,8 +85,16 @@ pub struct Outcome {
     pub problems: Vec<(String, String)>,
 }
 
+thread_local! {
+    static BIG: std::cell::Cell<bool> = const { std::cell::Cell::new(false) };
+}
+
 fn tag_for(id: &str) -> String {
-    format!("<tag>reply-to-{id}</tag>")
+    if BIG.with(std::cell::Cell::get) {
+        format!("<tag>reply-to-{id}</tag><pad>{}</pad>", "x".repeat(70_000))
+    } else {
+        format!("<tag>reply-to-{id}</tag>")
+    }
 }
 
 fn reply_for(id: &str) -> String {
@@ -116,8 +128,36 @@ struct Shared {
 }
 
 /// One complete execution under the installed chooser.
-#[allow(clippy::too_many_lines)]
 pub fn execute(sc: &Scenario) -> Outcome {
+    BIG.with(|b| b.set(sc.big_replies));
+    // a panic inside the library (for instance code that assumes a runtime the caller never promised) is a
+    // verdict for this execution, not a crash of the check; the explorer's own divergence panics pass through
+    match std::panic::catch_unwind(std::panic::AssertUnwindSafe(|| execute_inner(sc))) {
+        Ok(out) => out,
+        Err(payload) => {
+            if payload.is::<crate::explore::Divergence>() {
+                std::panic::resume_unwind(payload);
+            }
+            let msg = payload.downcast_ref::<&str>().map(|s| (*s).to_string()).or_else(|| payload.downcast_ref::<String>().cloned()).unwrap_or_else(|| "panic".into());
+            Outcome {
+                results: vec![],
+                dropped: vec![],
+                sent_ids: vec![],
+                followup: None,
+                steps: 0,
+                fingerprints: vec![],
+                livelock: false,
+                establish_failed: None,
+                build_failure_ok: true,
+                actions: vec![],
+                problems: vec![("library-panicked".into(), format!("the session layer panicked: {}", msg.chars().take(200).collect::<String>()))],
+            }
+        }
+    }
+}
+
+#[allow(clippy::too_many_lines)]
+fn execute_inner(sc: &Scenario) -> Outcome {
     let wire = Wire::new();
     wire.deliver(mem::hello(&[mem::CAP_BASE_1_0], "7"));
     let transport = wire.transport();
@@ -483,6 +523,7 @@ pub fn plans(id: &str, tier: Tier) -> Vec<Plan> {
     let thorough = tier.thorough();
     let sc = |n, placement, victims: &[usize], stray, bf, stalls, yields| Scenario {
         send_faults: false,
+        big_replies: false,
         n,
         placement,
         victims: victims.to_vec(),
@@ -506,6 +547,8 @@ pub fn plans(id: &str, tier: Tier) -> Vec<Plan> {
         for placement in [Tasks, Sequential] {
             add(Scenario { send_faults: true, ..sc(3, placement, &[], false, None, false, false) }, Some(if thorough { 4 } else { 3 }));
         }
+        // large replies (70 KB each)
+        add(Scenario { big_replies: true, ..sc(2, Tasks, &[], false, None, true, false) }, Some(if thorough { 6 } else { 3 }));
         // deep pipelines: many requests sent before any reply is collected (limits, windows, bounded queues
         // inside the session layer only show beyond a few dozen outstanding requests)
         for (n, placement) in [(33, Join), (40, Tasks), (65, Sequential), (130, Join)] {
@@ -531,6 +574,10 @@ pub fn plans(id: &str, tier: Tier) -> Vec<Plan> {
         }
         for victims in [&[0usize][..], &[1], &[0, 1]] {
             add(sc(2, Tasks, victims, false, None, true, true), Some(if thorough { 5 } else { 3 }));
+        }
+        // large replies (70 KB each): a reader that is dropped while it holds another caller's large reply
+        for victims in [&[0usize][..], &[1]] {
+            add(Scenario { big_replies: true, ..sc(2, Tasks, victims, false, None, false, false) }, Some(if thorough { 8 } else { 5 }));
         }
         if thorough {
             add(sc(4, Tasks, &[1, 2], false, None, true, false), Some(5));
@@ -631,6 +678,7 @@ fn scenario_json(sc: &Scenario) -> Value {
         "stalls": sc.stalls,
         "yields": sc.yields,
         "send_faults": sc.send_faults,
+        "big_replies": sc.big_replies,
     })
 }
 
@@ -648,6 +696,7 @@ pub fn scenario_from_json(v: &Value) -> Scenario {
         stalls: v["stalls"].as_bool().unwrap_or(true),
         yields: v["yields"].as_bool().unwrap_or(false),
         send_faults: v["send_faults"].as_bool().unwrap_or(false),
+        big_replies: v["big_replies"].as_bool().unwrap_or(false),
     }
 }
 
